@@ -335,6 +335,10 @@ func (cc *Conn) NetConn() net.Conn {
 
 // DoObserve subscribes for every change with request.
 func (cc *Conn) doObserve(req *pool.Message, observeFunc func(req *pool.Message)) (client.Observation, error) {
+	// NewObservation waits for the response to the registration. When the caller is a handler or an
+	// observe callback, it occupies the loop that reads the received messages: let another loop take
+	// over (as Do does before it waits), otherwise the awaited response is never processed.
+	cc.receivedMessageReader.TryToReplaceLoop()
 	return cc.observationHandler.NewObservation(req, observeFunc)
 }
 
